@@ -4,9 +4,9 @@
    specification: Spec/XsdPrims.v (written from XSD 1.1 part 2, imports no table). *)
 From Coq Require Import NArith ZArith List Bool Sorting.Permutation Sorting.Sorted.
 From XV Require Import Base.Str Base.Dec Base.PyInt Gen.ConvTables
-  Model.ConvBool Model.ConvInt Model.ConvBytes Model.ConvDecimal Model.ConvQName Model.ConvFloat
+  Model.ConvBool Model.ConvInt Model.ConvBytes Model.ConvDecimal Model.ConvQName Model.ConvFloat Model.ConvEnum
   Model.ConvFactory Model.ConvGuards Spec.XsdPrims
-  Proofs.ConvBool Proofs.ConvInt Proofs.ConvBytes Proofs.ConvDecimal Proofs.ConvQName Proofs.ConvFloat Proofs.ConvFactory.
+  Proofs.ConvBool Proofs.ConvInt Proofs.ConvBytes Proofs.ConvDecimal Proofs.ConvQName Proofs.ConvFloat Proofs.ConvEnum Proofs.ConvFactory.
 Import ListNotations.
 
 (* ======================= bool <-> xs:boolean ======================= *)
@@ -236,6 +236,43 @@ Theorem C05_float_syntax_accepts_xsd : forall d a b,
   float_syntax (a ++ lex_double d ++ b) = Some (fsyn_of d).
 Proof. exact float_syntax_spelled. Qed.
 Print Assumptions C05_float_syntax_accepts_xsd.
+
+(* ======================= enumerations ===================================== *)
+(* full round trip is false: whitespace in str values, tuple values *)
+Theorem C05_enum_str_outer_ws_refuted :
+  exists d v, str_values d = Some [v] /\ enum_ser None (EvAtom (AStr v)) = Some (v, None) /\ enum_deser None d v = None.
+Proof. exact enum_str_roundtrip_outer_ws_refuted. Qed.
+Print Assumptions C05_enum_str_outer_ws_refuted.
+
+Theorem C05_enum_str_collision_refuted :
+  exists d v, str_values d = Some [[97;32;98]%N; v] /\ NoDup [[97;32;98]%N; v]
+              /\ enum_ser None (EvAtom (AStr v)) = Some (v, None) /\ enum_deser None d v = Some 0%nat.
+Proof. exact enum_str_roundtrip_collision_refuted. Qed.
+Print Assumptions C05_enum_str_collision_refuted.
+
+Theorem C05_enum_tuple_ser_refuted :
+  let v := EvTuple [AStr [97]%N; AStr [98]%N] in
+  enum_ser None v = None /\ enum_deser None [([65]%N, v)] [97;32;98]%N = Some 0%nat.
+Proof. exact enum_tuple_ser_refuted. Qed.
+Print Assumptions C05_enum_tuple_ser_refuted.
+
+(* guard enum_str_value_ok: no outer whitespace, interior whitespace as single spaces *)
+Theorem C05_enum_str_roundtrip : forall m d vs i v,
+  str_values d = Some vs -> NoDup vs -> nth_error vs i = Some v -> enum_str_value_ok v = true ->
+  enum_ser m (EvAtom (AStr v)) = Some (v, m) /\ enum_deser m d v = Some i.
+Proof. exact enum_str_roundtrip. Qed.
+Print Assumptions C05_enum_str_roundtrip.
+
+Example C05_enum_str_guard_nonvacuous :
+  enum_str_value_ok [98;32;99]%N = true /\ enum_str_value_ok [120]%N = true /\ enum_str_value_ok [] = true.
+Proof. exact enum_str_guard_nonvacuous. Qed.
+Print Assumptions C05_enum_str_guard_nonvacuous.
+
+Theorem C05_enum_int_roundtrip : forall m d zs i z s,
+  int_values d = Some zs -> NoDup zs -> nth_error zs i = Some z -> int_ser z = Some s ->
+  enum_ser m (EvAtom (AInt z)) = Some (s, m) /\ enum_deser m d s = Some i.
+Proof. exact enum_int_roundtrip. Qed.
+Print Assumptions C05_enum_int_roundtrip.
 
 (* ======================= str =========================================== *)
 Theorem C05_string_roundtrip : forall s, string_deser (string_ser s) = Some s.
